@@ -23,6 +23,10 @@ type InterfaceMethod struct {
 	Name    string
 	Inputs  []InterfaceType
 	Outputs []InterfaceType
+
+	// Sig is the method's signature as seen by the type checker (nil in hand-built models).
+	// When both sides have it, signatures are compared with types.Identical.
+	Sig *types.Signature
 }
 
 // InterfaceType
@@ -130,6 +134,7 @@ func extractMethodsFromInterface(iface *types.Interface) []InterfaceMethod {
 			Name:    method.Name(),
 			Inputs:  extractTypesFromTuple(sig.Params(), sig.Variadic()),
 			Outputs: extractTypesFromTuple(sig.Results(), false),
+			Sig:     sig,
 		})
 	}
 
